@@ -748,3 +748,94 @@ func DeepDistance(r *Rand, nsym, first, long, total int) Data {
 	}
 	return Data{Desc: fmt.Sprintf("deep-distance-tree/%dsym-from-%d/long%d/%d", nsym, first, long, len(data)), B: data}
 }
+
+// DoubleGramUnit builds a period unit of length p (54..81) over three symbols
+// in which, read cyclically, every 3-gram occurs at least twice and every
+// 4-gram at most once: an Euler circuit of the de Bruijn graph on 3-grams from
+// which the 27 edges of the form abca (the pure cycling register) are removed,
+// with p-54 of them put back as whole cycles (three loops aaa->aaa and eight
+// cycles of length three).
+func DoubleGramUnit(r *Rand, p int) (unit []byte, ok bool) {
+	if p < 54 || p > 81 {
+		return nil, false
+	}
+	extra := p - 54
+	loops := extra % 3
+	tri := extra / 3
+	if tri > 8 {
+		loops += 3 * (tri - 8)
+		tri = 8
+	}
+	if loops > 3 {
+		return nil, false
+	}
+	// edge abcd: from node abc to node bcd; index a*27+b*9+c*3+d
+	var use [81]bool
+	for e := 0; e < 81; e++ {
+		a, d := e/27, e%3
+		use[e] = a != d
+	}
+	// put back cycles of x1x2x3 -> x2x3x1
+	lp := r.Perm(3)
+	for k := 0; k < loops; k++ {
+		a := lp[k]
+		use[a*27+a*9+a*3+a] = true
+	}
+	var cyc [][3]int
+	seen := map[int]bool{}
+	for n := 0; n < 27; n++ {
+		a, b, c := n/9, n/3%3, n%3
+		if a == b && b == c || seen[n] {
+			continue
+		}
+		seen[n], seen[b*9+c*3+a], seen[c*9+a*3+b] = true, true, true
+		cyc = append(cyc, [3]int{n, b*9 + c*3 + a, c*9 + a*3 + b})
+	}
+	cp := r.Perm(len(cyc))
+	for k := 0; k < tri; k++ {
+		for _, n := range cyc[cp[k]] {
+			use[n*3+n/9] = true // edge abca
+		}
+	}
+	// Hierholzer with random edge order
+	out := make([][]int, 27)
+	cnt := 0
+	for e := 0; e < 81; e++ {
+		if use[e] {
+			out[e/3] = append(out[e/3], e%3)
+			cnt++
+		}
+	}
+	if cnt != p {
+		return nil, false
+	}
+	for n := range out {
+		for i := len(out[n]) - 1; i > 0; i-- {
+			j := r.Intn(i + 1)
+			out[n][i], out[n][j] = out[n][j], out[n][i]
+		}
+	}
+	var stack, circuit []int
+	stack = append(stack, r.Intn(27))
+	for len(stack) > 0 {
+		v := stack[len(stack)-1]
+		if len(out[v]) > 0 {
+			d := out[v][len(out[v])-1]
+			out[v] = out[v][:len(out[v])-1]
+			stack = append(stack, (v%9)*3+d)
+		} else {
+			circuit = append(circuit, v)
+			stack = stack[:len(stack)-1]
+		}
+	}
+	if len(circuit) != p+1 {
+		return nil, false // not connected
+	}
+	syms := r.Perm(256)[:3]
+	unit = make([]byte, p)
+	for i := 0; i < p; i++ {
+		// circuit is reversed; the first symbol of each node in travel order
+		unit[i] = byte(syms[circuit[p-i]/9])
+	}
+	return unit, true
+}
